@@ -273,8 +273,11 @@ class C19(QueryFamily):
                    "C19_value_position is the statement that eval_term returns every value; tie = rows against the model on the falsy alphabet")
 
     def gen(self, rng, i, tier):
-        if rng.random() < 0.12:
+        r = rng.random()
+        if r < 0.12:
             return gen_query.gen_case_flat_scalar(rng, tier)
+        if r < 0.2:
+            return gen_query.gen_case_forall_expr(rng, falsy_values=True)
         nv = rng.choice([1, 2, 2])
         c = gen_query.gen_case(rng, nvars=nv, falsy=True, neg=rng.random() < 0.5, maxdepth=2, select=rng.choice(['all', 'some']), dom_max=4)
         # make falsy values dominant
